@@ -158,7 +158,7 @@ MUTANTS += [
  dict(id='C06-resend-never', props=['C06'], expect='R-RESUME-REPORT/hash-repair/resend-on-mismatch',
       edits=[(MS, '\t\t\t\t\t\t\tif senderHash != vHash && vChunk < forceSendFrom && bitmap.Get(int(vChunk)) && vChunk >= state.nextChunk {\n\t\t\t\t\t\t\t\tstate.resendChunk = vChunk\n\t\t\t\t\t\t\t\tstate.resendPending = true\n\t\t\t\t\t\t\t}\n', '\t\t\t\t\t\t\tif senderHash != vHash && vChunk < forceSendFrom && bitmap.Get(int(vChunk)) && vChunk >= state.nextChunk {\n\t\t\t\t\t\t\t\tstate.resendChunk = vChunk\n\t\t\t\t\t\t\t}\n')]),
  dict(id='C06-overwrite-not-cleared', props=['C06'], expect='R-OVERWRITE-CLEARS/overwrite/',
-      edits=[(SR, '\t\t\t\tif !resume {\n\t\t\t\t\tif err := clearResumeData(r.outDir, offer.Summary.RootName); err != nil && r.verbose {\n\t\t\t\t\t\tfmt.Fprintf(termio.Stderr(), "Failed to clear resume data: %v\\n", err)\n\t\t\t\t\t}\n\t\t\t\t}\n', '\t\t\t\t_ = resume\n')]),
+      edits=[(SR, '\t\t\t\t\tif !resume {\n\t\t\t\t\t\tif err := clearResumeData(r.outDir, summary.RootName); err != nil && r.verbose {\n\t\t\t\t\t\t\tfmt.Fprintf(termio.Stderr(), "Failed to clear resume data: %v\\n", err)\n\t\t\t\t\t\t}\n\t\t\t\t\t}\n', '\t\t\t\t\t_ = resume\n')]),
 ]
 HUB = 'internal/peers/hub.go'
 MUTANTS += [
@@ -1596,4 +1596,13 @@ MUTANTS += [
       edits=[(MS, '\t\t\t\tif n != int(chunkLen) {\n\t\t\t\t\tbufPool.Put(buf)\n\t\t\t\t\tif err == nil {\n\t\t\t\t\t\terr = io.ErrUnexpectedEOF\n\t\t\t\t\t}\n\t\t\t\t\tsetErr(fmt.Errorf("short read for %s: got %d want %d", state.item.RelPath, n, chunkLen))\n', '\t\t\t\tif n != int(chunkLen) && (n == 0 || chunkIndex+1 < state.totalChunks) {\n\t\t\t\t\tbufPool.Put(buf)\n\t\t\t\t\tsetErr(fmt.Errorf("short read for %s: got %d want %d", state.item.RelPath, n, chunkLen))\n'), (MS, '\t\t\t\tif want := chunkSizeForIndex(state.item.Size, state.chunkSize, chunkIndex); chunkLen != want {', '\t\t\t\tif want := chunkSizeForIndex(state.item.Size, state.chunkSize, chunkIndex); chunkLen > want {')]),
  dict(id='R11-short-read-tolerated-frame-at-planned-length', props=['C02'], expect='R-FULL-READ/full-read/',
       edits=[(MS, '\t\t\t\tif n != int(chunkLen) {\n\t\t\t\t\tbufPool.Put(buf)\n\t\t\t\t\tif err == nil {\n\t\t\t\t\t\terr = io.ErrUnexpectedEOF\n\t\t\t\t\t}\n\t\t\t\t\tsetErr(fmt.Errorf("short read for %s: got %d want %d", state.item.RelPath, n, chunkLen))\n', '\t\t\t\tif n != int(chunkLen) && (n == 0 || chunkIndex+1 < state.totalChunks) {\n\t\t\t\t\tbufPool.Put(buf)\n\t\t\t\t\tsetErr(fmt.Errorf("short read for %s: got %d want %d", state.item.RelPath, n, chunkLen))\n'), (MS, 'writeChunkFrame(transferCtx, s, state, chunkIndex, uint32(n), chunkCRC, buf[:n], opts.ProgressDeltaFn)', 'writeChunkFrame(transferCtx, s, state, chunkIndex, chunkLen, chunkCRC, buf[:chunkLen], opts.ProgressDeltaFn)')]),
+]
+
+# --- F82 (the QUIC twin of F79) ---
+DT = 'internal/app/dumb_transfer.go'
+MUTANTS += [
+ dict(id='F82-undo-close-on-cancel', props=['C12'], expect='R-DUMB-WRITE-CANCELLABLE/dumb-write/app.sendDumbData',
+      edits=[(DT, '\tstopClose := context.AfterFunc(ctx, func() { _ = conn.Close() })\n\tdefer stopClose()\n\n\treturn sendDumbDataWriter(stream, nameBytes, size)\n', '\treturn sendDumbDataWriter(stream, nameBytes, size)\n')]),
+ dict(id='F82-benign-closes-the-stream-and-the-connection', props=['C12'], expect='SILENT',
+      edits=[(DT, '\tstopClose := context.AfterFunc(ctx, func() { _ = conn.Close() })\n\tdefer stopClose()\n\n\treturn sendDumbDataWriter(stream, nameBytes, size)\n', '\tstopClose := context.AfterFunc(ctx, func() {\n\t\t_ = stream.Close()\n\t\t_ = conn.Close()\n\t})\n\tdefer stopClose()\n\n\treturn sendDumbDataWriter(stream, nameBytes, size)\n')]),
 ]
